@@ -52,7 +52,7 @@ var cfg = gobatch.Config{Name: "c35", Gen: Generate, OracleOf: oracleOf, Known: 
 func TestGenericVsSpecialised(t *testing.T) {
 	c := cfg
 	c.Rec = rec
-	c.N = rec.Scale(100, 1200)
+	c.N = rec.Scale(80, 1000)
 	if n, _ := strconv.Atoi(os.Getenv("C35_N")); n > 0 {
 		c.N = n // development only
 	}
